@@ -56,8 +56,8 @@ PROPS["C01"] = {
     "harness": "kvs", "level": "fault_enumeration", "per_proc": 12, "proc_timeout": 900,
     "quick": {"runs": 1500, "budget_s": 300},
     "thorough": {"runs": 15000, "budget_s": 1700, "shrink_runs": 300},
-    "rule": "Each generated history (1-2 families, or - a third of the histories - 3-4 families with parallel flushes: 2-3 flusher tasks on different families of the one store at the same time under a seeded schedule, sharing the file number allocator, manifest and version set; after a crash every family on its own must show its state before or after the flush that was in flight on it; 4-12 operations out of flush [1-6 keys, Add and StreamWriter mixed, value padding 0..3000 bytes so the 4 KiB writer buffer flushes mid-table, optional per-leader sequence, sequence-only flush], Family.Compact, background compaction tick, rollup bookkeeping against a second store, clean close+reopen) is first run without faults (reference-model equality after every operation). Then it is re-executed once per file-system seam operation k=1..N of that fault-free run (quick tier: at most 60 evenly spread points with a per-history random offset; thorough: all N) with the process killed right before operation k; the store is reopened by a fresh incarnation and judged; thorough chains up to two more deaths a few operations later (inside recovery). evaluations = executions (fault-free + crashing). Seam operations: create/write/sync/flush/close of manifest and table writers, write-file and rename of CURRENT, OPTIONS rewrite, mkdir, remove, map/unmap.",
-    "fault_kinds": ["crash@write", "crash@sync", "crash@create", "crash@close", "crash@rename", "crash@writefile", "crash@writetoml", "crash@remove", "crash@mkdir", "close-reopen"],
+    "rule": "Each generated history (1-2 families, or - a third of the histories - 3-4 families with parallel flushes: 2-3 flusher tasks on different families of the one store at the same time under a seeded schedule, sharing the file number allocator, manifest and version set; after a crash every family on its own must show its state before or after the flush that was in flight on it; 4-12 operations out of flush [1-6 keys, Add and StreamWriter mixed, value padding 0..3000 bytes so the 4 KiB writer buffer flushes mid-table, optional per-leader sequence, sequence-only flush], Family.Compact, background compaction tick, rollup bookkeeping against a second store, clean close+reopen) is first run without faults (reference-model equality after every operation). Then it is re-executed once per file-system seam operation k=1..N of that fault-free run (quick tier: at most 60 evenly spread points with a per-history random offset; thorough: all N) with the process killed right before operation k; the store is reopened by a fresh incarnation and judged; thorough chains up to two more deaths a few operations later (inside recovery). evaluations = executions (fault-free + crashing). Seam operations: create/write/sync/flush/close of manifest and table writers, write-file and rename of CURRENT, OPTIONS rewrite, mkdir, remove, map/unmap. A fifth of the sequential histories carry no process death but 1-3 injected I/O errors (disk full) at write / sync / flush of a table file or at a file removal inside flushes, compactions and rollups, judged apart: a flush whose Add or stream write failed is abandoned and nothing of it may show; a flush whose Commit reported the failure took effect entirely or not at all (both contents allowed until a reopen decides); a commit that returns success after a failed table write, or an error without an injected fault, is a violation. Manifest writes are not failed (what a written record whose fsync failed means is outside the statement).",
+    "fault_kinds": ["crash@write", "crash@sync", "crash@create", "crash@close", "crash@rename", "crash@writefile", "crash@writetoml", "crash@remove", "crash@mkdir", "close-reopen", "io-error@write"],
     "real": ["kv (store, store manager, family, flusher, compact job, rollup bookkeeping)", "kv/version (version set, manifest, edit logs, recovery)", "kv/table (builder, mmap reader, cache)", "pkg/bufioutil"],
     "stub": ["merger: a harness merger registered with kv.RegisterMerger (token-set union) so content is invariant under compaction"],
     "assumptions": COMMON_ASSUME + ["compile-time knob in the overlay only: pkg/bufioutil.defaultWriteBufferSize=4096 (shipped 256 KiB) so tables reach the file in several writes", "the store file lock is a no-op under simulation (a dead incarnation cannot keep it)"],
@@ -111,8 +111,8 @@ PROPS["C09"] = {
     "harness": "ids", "level": "exploration", "per_proc": 100, "proc_timeout": 900,
     "quick": {"runs": 40000, "budget_s": 300},
     "thorough": {"runs": 1000000, "budget_s": 1700, "shrink_runs": 300, "shrink_timeout": 600},
-    "rule": "Each run: one real MetricMetaDatabase shared by a metadata-worker task (metric ids, field ids) and 1-2 shard index-worker tasks, each with its own real MetricIndexDatabase (metric id, series id and through it tag key / tag value ids) - the callers tsdb/memdb has - over a small name universe (2 namespaces x 4 metrics x 8 tag sets x 3 fields) under a seeded schedule; 1-3 phases of 2-11 calls with PrepareFlush-in-worker + Flush-in-own-task for the meta and index databases (meta flushes serialised as the flush checker does), from the second phase on also an adversarial schedule ('suspend': a caller is held at a chosen yield point of its get-or-create while another caller creates the same metric name and a complete metadata (+ index) flush cycle passes, then continues, then the name is asked again); ending with nothing, flush, flush+close+reopen, or process death (at a file-system seam operation of the kv stores, at entry of the sequence sync / flush functions, or idle). Oracle: ledger name<->ID per kind and scope; after restart get-only lookups (GetMetricID, GetSchema, CollectTagValues, postings) decide what survived, everything that survived must have its old ID, after a clean reopen everything must have survived, and new names must not receive IDs that surviving dictionaries or postings use for another name. Index flushes follow shard.FlushIndex: the stores are switched by the shard's own worker between two calls, one flush of a shard at a time (a request while one runs is dropped); metadata flushes are serialised like the flush checker does.",
-    "fault_kinds": ["crash@write", "crash@yield", "crash-idle", "close-reopen", "caller-suspended"],
+    "rule": "Each run: one real MetricMetaDatabase shared by a metadata-worker task (metric ids, field ids) and 1-2 shard index-worker tasks, each with its own real MetricIndexDatabase (metric id, series id and through it tag key / tag value ids) - the callers tsdb/memdb has - over a small name universe (2 namespaces x 4 metrics x 8 tag sets x 3 fields) under a seeded schedule; 1-3 phases of 2-11 calls with PrepareFlush-in-worker + Flush-in-own-task for the meta and index databases (meta flushes serialised as the flush checker does), from the second phase on also an adversarial schedule ('suspend': a caller is held at a chosen yield point of its get-or-create while another caller creates the same metric name and a complete metadata (+ index) flush cycle passes, then continues, then the name is asked again); ending with nothing, flush, flush+close+reopen, or process death (at a file-system seam operation of the kv stores, at entry of the sequence sync / flush functions, or idle). Oracle: ledger name<->ID per kind and scope; after restart get-only lookups (GetMetricID, GetSchema, CollectTagValues, postings) decide what survived, everything that survived must have its old ID, after a clean reopen everything must have survived, and new names must not receive IDs that surviving dictionaries or postings use for another name. Index flushes follow shard.FlushIndex: the stores are switched by the shard's own worker between two calls, one flush of a shard at a time (a request while one runs is dropped); metadata flushes are serialised like the flush checker does. In a quarter of the runs 1-2 table writes of a metadata or index flush fail with an I/O error (disk full): the flush reports it, and a later flush has to persist what the failed one held (names of a flush that reported success must survive the reopen with their IDs; a name created later must not receive an ID the persisted dictionaries or postings use).",
+    "fault_kinds": ["crash@write", "crash@yield", "crash-idle", "close-reopen", "caller-suspended", "io-error@write"],
     "real": ["index (kv store, metric meta database, metric index database, schema store, sequence)", "index/v1 flushers/readers/mergers, index/model trie buckets", "kv stores underneath", "hashicorp/golang-lru expirable cache (rewritten copy)"],
     "stub": ["tsdb/memdb workers: replaced by harness tasks calling the same index APIs in the same roles (the real workers run in the node harness)"],
     "assumptions": COMMON_ASSUME + ["series ids are generated by one caller per index database, as one shard index worker does"],
